@@ -14,6 +14,7 @@ Tie: the same call through the Lean model `replaceCore` (Model/Replace.lean) on 
 canonical result (atoms in order with type ids, charges, groups; type tables; terms), positions within 1e-7."""
 import multiprocessing
 import os
+import random
 from collections import Counter
 from fractions import Fraction
 
@@ -25,7 +26,11 @@ RULE = ("periodic structures from findlib.planted_structure (1-5 planted copies 
         "less than 0.8 search lengths - outside the cell), unique charges, "
         "random groups, type labels = or != element names; replacement EMPTY / smaller / equal / larger, with / without "
         "atoms shared with the search pattern (same element + same coordinates; non-shared atoms differ in element or by "
-        ">= 1/1024 A), shuffled atom order; f in {0,.1,.25,.5,.75,1} or random; replace_all on/off; random seeds. "
+        ">= 1/1024 A), shuffled atom order; atol in {.05 (mostly), .02, .1, .2} with the copies distorted by <= atol/8; axis / "
+        "orientation hints none (75 %) or valid full / partial triples; return_num_matches on (85 %) / off; 20 % of the structures "
+        "declare 1-2 spare atom types at the end of their tables that no atom uses; TWO-STEP histories: a first replacement "
+        "that replaces nothing (fraction 0, or a search pattern that is absent) or half of the matches, then an ordinary "
+        "replacement on its result (re-tagged), the full oracle and the tie applied to each step relative to its own input; f in {0,.1,.25,.5,.75,1} or random; replace_all on/off; random seeds. "
         "Thorough adds the full grid mode x shared x f(1/16 steps) x replace_all. "
         "Non-trivial = distinct input on which at least one match was replaced.")
 
@@ -116,7 +121,7 @@ def oracle_replace(inp, out):
         if disjoint:
             return "replacing matches that remove no atom twice raised %s" % out.get("err"), out.get("err")
         return None        # overlapping removals: the business of C07
-    if out["n"] != k:
+    if inp.get("return_num", True) and out["n"] != k:
         return "reported match count differs from the number of matches replaced", {"reported": out["n"], "replaced": k}
     if not disjoint:
         return None
@@ -189,9 +194,63 @@ def oracle_replace(inp, out):
     return None
 
 
+def run_replace_kw(sj, pj, rj, atol, fraction, replace_all, ignore, hints, seed, return_num):
+    """findlib.run_replace with `return_num_matches` selectable: with False only the structure comes back
+    (out["n"] is then None).  Same recording of the found matches, of the random.sample selection and of
+    inputs_unchanged."""
+    import random
+    import numpy as np
+    import mofun.mofun as mm
+    if return_num:
+        return fl.run_replace(sj, pj, rj, atol=atol, fraction=fraction, replace_all=replace_all, ignore=ignore, hints=hints, seed=seed)
+    s, p, r = core.atoms_from_json(sj), core.atoms_from_json(pj), core.atoms_from_json(rj)
+    rec = {}
+    real_find, real_sample = mm.find_pattern_in_structure, random.sample
+
+    def find_wrap(*a, **k):
+        o = real_find(*a, **k)
+        rec["found"] = ([[int(i) for i in t] for t in o[0]], np.array(o[1], dtype=float).tolist(),
+                        [[float(x) for x in qq.as_quat()] for qq in o[2]])
+        return o
+
+    def sample_wrap(pop, k):
+        o = real_sample(pop, k)
+        rec["sample"] = list(o)
+        return o
+
+    mm.find_pattern_in_structure = find_wrap
+    random.sample = sample_wrap
+    random.seed(seed)
+    np.random.seed(seed % (2 ** 32))
+    try:
+        res = core.result_of(lambda: mm.replace_pattern_in_structure(
+            s, p, r, replace_fraction=fraction, atol=atol, axisp1_idx=hints[0], axisp2_idx=hints[1], opoint_idx=hints[2],
+            replace_all=replace_all, ignore_atoms_should_not_be_deleted_twice=ignore))
+    finally:
+        mm.find_pattern_in_structure = real_find
+        random.sample = real_sample
+    out = {"found": rec.get("found"), "sample": rec.get("sample"), "n": None}
+    if "ok" in res:
+        if isinstance(res["ok"], tuple):
+            out["err"] = "error:returned-a-tuple-without-return_num_matches"
+        else:
+            out["ok"] = core.canon_atoms(res["ok"])
+    else:
+        out["err"] = res["err"]
+    out["inputs_unchanged"] = (core.same(core.canon_atoms(s), sj) is None and core.same(core.canon_atoms(p), pj) is None
+                               and core.same(core.canon_atoms(r), rj) is None)
+    if out["found"] is not None:
+        idx, pos, quats = out["found"]
+        order = out["sample"] if out["sample"] is not None else list(range(len(idx)))
+        out["used"] = [{"idx": idx[i], "pos": [[core.q(x) for x in pp] for pp in pos[i]], "quat": [core.q(x) for x in quats[i]]}
+                       for i in order]
+    return out
+
+
 def real(inp):
-    return fl.run_replace(inp["sj"], inp["pj"], inp["rj"], atol=inp["atol"], fraction=inp["f"], replace_all=inp["replace_all"],
-                          ignore=inp.get("ignore", False), hints=(None, None, None), seed=inp["seed"])
+    return run_replace_kw(inp["sj"], inp["pj"], inp["rj"], atol=inp["atol"], fraction=inp["f"], replace_all=inp["replace_all"],
+                          ignore=inp.get("ignore", False), hints=tuple(inp.get("hints") or (None, None, None)), seed=inp["seed"],
+                          return_num=inp.get("return_num", True))
 
 
 def one(inp):
@@ -209,7 +268,12 @@ def tags_of(inp, out):
     t = ["mode:" + i["mode"], "shared:%s" % ("yes" if i["shared"] else "no"), "cell:" + i["cell"], "pattern:" + i["pattern"],
          "replace_all:%s" % inp["replace_all"], "place:%s" % i.get("boundary"),
          "f:%s" % (inp["f"] if inp["f"] in g.FRACTIONS else "random"),
-         "unwrapped-atoms:%s" % ("yes" if i.get("outside") else "no")]
+         "unwrapped-atoms:%s" % ("yes" if i.get("outside") else "no"), "atol:%g" % inp["atol"],
+         "hints:%s" % "".join("-" if h is None else "x" for h in (inp.get("hints") or [None] * 3)),
+         "return_num_matches:%s" % inp.get("return_num", True), "spare-types:%s" % bool(i.get("spare_types")),
+         "step:%s" % (i.get("step", "single") if i.get("step") != 1 else "1:" + i.get("step1kind", "?"))]
+    if i.get("step") == 2:
+        t.append("step2-after:" + str(i.get("step1")))
     if out.get("found") is not None:
         t.append("found:%d" % len(out["found"][0]))
         t.append("replaced:%d" % len(out["used"]))
@@ -269,7 +333,7 @@ def grid_cases(rng, nf=16):
 def run(ctx, oracle_only=False, scale=1):
     ctx.rule = RULE
     rng = ctx.rng
-    inps = [g.random_case(rng) for _ in range(ctx.n(900, 9000) * scale)]
+    inps = [g.random_case(rng) for _ in range(ctx.n(800, 9000) * scale)]
     # every (mode, shared) combination at least a few times, with everything replaced
     for mode in g.MODES:
         for shared in ((False,) if mode == "empty" else (True, False)):
@@ -278,6 +342,16 @@ def run(ctx, oracle_only=False, scale=1):
                     inps.append(g.random_case(rng, mode=mode, shared=shared, f=1.0, replace_all=ra))
     if ctx.tier != "quick":
         inps += grid_cases(rng)
+    # two-step histories: step 1 replaces nothing (fraction 0 / absent pattern) or half of the matches, step 2 is an
+    # ordinary replacement on the RESULT of step 1, judged by the full oracle relative to its own input
+    firsts = [g.first_step(rng) for _ in range(ctx.n(90, 700) * scale)]
+    seeds2 = [rng.randrange(1 << 30) for _ in firsts]
+    pre = []
+    for inp1, s2 in zip(firsts, seeds2):
+        out1, bad1 = one(inp1)
+        pre.append((inp1, (out1, bad1)))
+        if bad1 is None and "ok" in out1:
+            inps.append(g.second_step(random.Random(s2), inp1, out1["ok"]))
     procs = 1 if len(inps) <= 1500 else max(1, min(8, (os.cpu_count() or 2) // 2))
     if procs > 1:
         with multiprocessing.get_context("fork").Pool(procs) as pool:
@@ -285,7 +359,7 @@ def run(ctx, oracle_only=False, scale=1):
     else:
         results = [_worker(i) for i in inps]
     ties = []
-    for inp, (out, bad) in zip(inps, results):
+    for inp, (out, bad) in pre + list(zip(inps, results)):
         record(ctx, inp, out, bad)
         if bad in (None, "ambiguous") and out.get("used") is not None:
             if inp["f"] < 1.0 and out.get("sample") is None:
@@ -297,7 +371,7 @@ def run(ctx, oracle_only=False, scale=1):
             ties.append((inp, out))
     if oracle_only:
         return
-    ties = ties[:ctx.n(1400, 10000)]
+    ties = ties[:ctx.n(1600, 14000)]
     ops = [fl.replace_op(inp["sj"], inp["pj"], inp["rj"], out["used"], inp["replace_all"], inp.get("ignore", False))
            for inp, out in ties]
     models = []
